@@ -90,6 +90,11 @@ CHECKS["C12"] = dict(
     note="PARTIAL: wall-clock bounds and the goroutine inventory are observed, not proved. Proviso: List/Watch honour context cancellation.",
     design="6/C12", technique="Coq proof (closed-set reachability on the lifecycle protocol, termination measure) + shutdown-point enumeration with deadlock and goroutine-inventory oracles")
 
+CHECKS["C20"] = dict(
+    text="Adapter model (Typed.v): typed cache / events / callbacks are the untyped ones restricted to the type, in order; own-type objects are untouched; foreign objects are skipped (no callback, no nil); Get classification; instantiate changes only the placeholder. Source level (translator route): on every run harness/cmd/gentokens tokenizes the template, the 12 generated.go and the 8 generated joins from the tree under test and the Coq kernel checks instantiate(template) = generated / executed join template = generated join: 20 per-run obligations. Correspondence: all 12 typed packages run the same seeded scenario side by side with an untyped controller on one fake API server (foreign objects injected on the watch): caches, filtered caches, events, filtered events, monitor callbacks, Get, readiness, Close; REST paths and queries of list and watch for every typed client with and without namespace against a loopback HTTP server.",
+    note="PARTIAL: program equality per run (kernel-computed), REST table is data. Trusted: the tokenizing translator.",
+    design="6/C20", technique="Coq proof (restriction theorems) + per-run kernel-checked template instantiation (translator) + typed/untyped side-by-side correspondence + loopback REST check")
+
 PENDING = {}
 
 def main():
